@@ -42,12 +42,16 @@ A23 = ("arr2", ((1.0, 0.0, -1.0), (0.5, 2.0, 0.0)))
 SCALARS_PLAIN = [("c", 2), ("c", 0.75), ("k", 1, "bool"), ("k", 0.75, "np64"), ("k", 2, "npi"), ("k", -0.5, "a0")]
 SCALARS_OPTYX = [("C", 0.75), X, ("bin", "+", X, Y), ("bin", "*", ("c", 2), X), ("un", "sin", X), ("par", "p"),
                  ("sum", V3), ("dot", V3, W3), ("bin", "-", ("bin", "**", X, ("c", 2)), Y), ("idx", V3, 1)]
-VECTORS_PLAIN = [("lst", (0.75, 2.0, -0.5)), ("arr", (0.75, 2.0, -0.5)), ("arr", (1.0, 2.0)), ("lst", (1.0, 2.0, 3.0, 4.0))]
+VECTORS_PLAIN = [("lst", (0.75, 2.0, -0.5)), ("arr", (0.75, 2.0, -0.5)), ("arr", (1.0, 2.0)), ("lst", (1.0, 2.0, 3.0, 4.0)),
+                 ("arr", (0.75, 2.0, -0.5), "strided"), ("arr", (0.75, 2.0, -0.5), "reversed-view"), ("arr", (2, 0, -1), "int")]
 VECTORS_OPTYX = [V3, W3, ("slice", V4, 1, 4, None), ("slice", V3, None, None, -1), ("vbin", "+", V3, ("c", 1)),
                  ("vbin", "*", V3, W3), ("rvbin", "-", ("c", 2), V3), ("mv", A23, V3), V4,
                  ("vneg", V3), ("row", M23, 0, None, None, None), ("vbin", "**", ("vbin", "+", V3, ("c", 0)), ("c", 2))]
 MATRICES_PLAIN = [("arr2", ((0.75, 2.0), (-0.5, 0.25))), ("lst2", ((0.75, 2.0), (-0.5, 0.25))),
-                  ("arr2", ((1.0, 2.0, 3.0), (4.0, 5.0, 6.0)))]
+                  ("arr2", ((1.0, 2.0, 3.0), (4.0, 5.0, 6.0))),
+                  # the same data in other NumPy memory layouts
+                  ("arr2", ((0.75, 2.0), (-0.5, 0.25)), "F"), ("arr2", ((0.75, 2.0, -1.5), (-0.5, 0.25, 2.0)), "T"),
+                  ("arr2", ((0.75, 2.0, -1.5), (-0.5, 0.25, 2.0)), "F"), ("arr2", ((0.75, 2.0), (-0.5, 0.25)), "strided")]
 MATRICES_OPTYX = [M22, N22, ("T", M22), ("mbin", "+", M22, ("c", 1)), ("mbin", "*", M22, N22), S22, M23,
                   ("T", M23), ("mneg", M22), ("sub", M23, 0, 2, 1, 3)]
 # vector-valued nodes that are scalar `Expression` subclasses (ElementwisePower / ElementwiseUnary)
